@@ -38,6 +38,8 @@ def cases(draw, tier="quick"):
     if shape == "solo":
         cm = [draw(st.sampled_from(["set", "alloc", "input"])), "none"]
     P["codemode"] = cm
+    if shape == "pair" and cm == ["set", "set"] and draw(st.integers(0, 3)) == 0:
+        P["codes"] = ["7", "7"]          # a code that is only a nameplate (empty password) is well-formed
     if shape == "wrong":
         P["codes"] = ["7-purple-sausages", "7-purple-sausagez"]
         if cm[0] == "alloc":
